@@ -234,17 +234,19 @@ for _fid, _cls in (('odml/section.py::BaseSection.new_id', 'BaseSection'),
 # ---- reorder ------------------------------------------------------------------------------------
 contract('odml/section.py::BaseSection.reorder',
          types={'self': 'BaseSection', 'new_index': 'any'},
-         requires='is_int(new_index)',
+         requires='not is_ref(new_index)',
          ensures=['field(self, "_parent") is old(field(self, "_parent"))'],
-         raises={'ValueError': 'field(self, "_parent") is None'},
+         raises={'ValueError': 'field(self, "_parent") is None',
+                 'TypeError': 'field(self, "_parent") is not None and not is_int(new_index)'},
          on_raise='Same',
          props=('C03', 'C06'))
 
 contract('odml/property.py::BaseProperty.reorder',
          types={'self': 'BaseProperty', 'new_index': 'any'},
-         requires='is_int(new_index)',
+         requires='not is_ref(new_index)',
          ensures=['field(self, "_parent") is old(field(self, "_parent"))'],
-         raises={'ValueError': 'field(self, "_parent") is None'},
+         raises={'ValueError': 'field(self, "_parent") is None',
+                 'TypeError': 'field(self, "_parent") is not None and not is_int(new_index)'},
          on_raise='Same',
          props=('C03', 'C06'))
 
